@@ -348,7 +348,7 @@ impl IsoCheck for C19 {
             rep.add("inconclusive_resource_limit", 1);
             return false;
         }
-        mc_core::alloc::set_request_cap(1 << 30);
+        mc_core::alloc::set_request_cap(crate::iso::REQUEST_CAP);
         let comp = match catch(|| encode(c.w, &c.o, &input)) {
             Err(p) => {
                 if mc_core::alloc::cap_was_hit() && self.huge_alloc_ok(i, 0) {
